@@ -6,6 +6,7 @@ Boolean / 1-2 bit variables), and with the advertised shape predicate.  One shap
 instance: "for every formula of this shape the procedure returns an equivalent term of the
 advertised form"."""
 import itertools
+from fractions import Fraction
 
 from .absint import Interp, Explorer, AObj, Func, ClassRef, Unsupported, AbsRaise, SymInt, Prim
 from .world import World
@@ -307,6 +308,8 @@ def term_shapes():
         ("BVULT", u, v), ("Equals", ("BVAdd", u, v), ("BVNot", u)), ("BVSLE", ("BVConcat", u, v), ("BVZExt", u, 4)),
         ("Equals", ("BVExtract", u, 1, 2), ("BVExtract", v, 0, 1)), ("Equals", ("BVToNatural", u), x),
         ("LT", ("ToReal", x), r), ("Equals", ("Div", r, s_), r), ("LE", ("Pow", r, ("lit", 2, REAL)), s_),
+        ("LE", ("Pow", r, ("lit", -1, REAL)), s_), ("LE", ("Pow", r, ("lit", Fraction(1, 2), REAL)), s_),
+        ("LE", ("Pow", ("Plus", r, s_), ("lit", 3, REAL)), s_), ("LE", ("Pow", r, ("lit", -2, REAL)), ("Pow", s_, ("lit", 1, REAL))),
         ("Equals", ("Times", x, y), z), ("Equals", ("Times", x, y, z), z),
         ("Equals", ("StrLength", st), x), ("StrContains", st, ("lit", "a", ("STRING",))),
         ("Equals", ("IntToStr", x), st), ("Equals", ("StrLength", ("IntToStr", x)), y),
